@@ -62,9 +62,9 @@ pub fn constructed(r: &mut Rng, tight_domains: bool) -> LinearModel {
     for (k, a) in rows.iter().enumerate() {
         let rel = gen_lp::cmp3(r, 30);
         // multiplier of the row in the MIN form: >= rows need y > 0, <= rows y < 0, = rows any non-zero sign
-        // mostly multipliers of magnitude 1..3; every third row a TINY but non-zero one (1e-5 .. 9e-5): a price that a
+        // mostly multipliers of magnitude 1..3; every third row a TINY but non-zero one (2e-5 .. 9e-5): a price that a
         // "noise threshold" would wrongly flatten to zero
-        let mag = if r.chance(1, 3) { (1 + r.below(9)) as f64 * 1e-5 } else { 1.0 + r.below(3) as f64 };
+        let mag = if r.chance(1, 3) { (2 + r.below(8)) as f64 * 1e-5 } else { 1.0 + r.below(3) as f64 };
         let y = match rel { Comparison::GreaterOrEqual => mag, Comparison::LessOrEqual => -mag, _ => if r.chance(1, 2) { mag } else { -mag } };
         for j in 0..n { obj[j] += y * a[j]; }
         let rhs: f64 = a.iter().zip(&x0).map(|(p, q)| p * q).sum();
